@@ -47,11 +47,11 @@ CHECKS = {
             "Trusted: exact rational point-segment distance and integer triangle areas. The harness builds geo with overflow checks on, so arithmetic wrap-around shows up as a panic.",
             "DESIGN.md §4 C09"),
     "C03": ("E1-grid", "exhaustive enumeration of ulp-lattice windows around ill-conditioned configurations vs exact big-integer predicates",
-            "For 8 ill-conditioned base configurations (Shewchuk's classroom example, segments with endpoints at 2^52, exactly collinear integers at 2^51, nearly parallel lines, a thin triangle, mixed magnitudes 2^-30..2^30, far from the origin, negative quadrant) the query point ranges over every point of a w x w ulp lattice (96^2 quick, 384^2 thorough); orient2d (f64, f32), point-on-segment, segment-segment intersects, line_intersection presence, ring/polygon/triangle/rect point location, contains/intersects and winding_order must equal exact arithmetic on the dyadic values; hull vertex sets on window points; integer kernels on all lattice triples at magnitudes up to 2^29.",
+            "For 14 ill-conditioned base configurations (Shewchuk's classroom example, segments with endpoints at 2^52, exactly collinear integers at 2^51, nearly parallel lines, a thin triangle, mixed magnitudes 2^-30..2^30, far from the origin, negative quadrant) the query point ranges over every point of a w x w ulp lattice (see below); orient2d (f64, f32), point-on-segment, segment-segment intersects, line_intersection presence, ring/polygon/triangle/rect point location, contains/intersects and winding_order must equal exact arithmetic on the dyadic values; hull vertex sets on window points; integer kernels on all lattice triples at magnitudes up to 2^29.",
             "The domain 'all finite f64' is not enumerable: coverage is the stated windows only. The evidence reports on how many window points the naive determinant is wrong (the check aborts as vacuous if none). One known finding: quick_hull is not robust on such points.",
             "DESIGN.md §4 C03"),
     "C11": ("E1-grid", "bounded exhaustive enumeration of segment pairs (lattice, incl. zero-length) and ulp windows vs exact rational / big-integer classification",
-            "Every ordered pair of segments over the 5x5 lattice (thorough 6x6) including zero-length operands: None / SinglePoint(proper iff interior to both) / Collinear with the exact shared sub-segment, improper point bit-identical to the endpoint, proper point within 4 ulp of the exact rational crossing and in both bounding boxes, agreement with Line::intersects, invariance under swapping and reversing the operands; plus one endpoint ranging over every point of ulp windows around nearly-parallel, touching, collinear-overlap and 2^52-magnitude configurations against exact big-integer classification.",
+            "Every ordered pair of segments over the 6x6 lattice (thorough 9x9) including zero-length operands: None / SinglePoint(proper iff interior to both) / Collinear with the exact shared sub-segment, improper point bit-identical to the endpoint, proper point within 4 ulp of the exact rational crossing and in both bounding boxes, agreement with Line::intersects, invariance under swapping and reversing the operands; plus one endpoint ranging over every point of ulp windows around nearly-parallel, touching, collinear-overlap and 2^52-magnitude configurations against exact big-integer classification.",
             "Bounding-box containment of proper points is asserted with a 4-ulp slack (reading of 'within a few ulps'; measured 1 ulp from the nearest-endpoint fallback).",
             "DESIGN.md §4 C11"),
     "C14": ("E1-grid", "bounded exhaustive enumeration of closed coordinate sequences (valid or not), hole placements and polygon pairs vs a literal transcription of the property on the exact arrangement",
@@ -75,17 +75,36 @@ CHECKS = {
             "Rect is exempt from the traversal clause, as the property says. try_map_coords_in_place cannot be instantiated on Geometry/GeometryCollection (closure type recursion in the impl) and is exercised on the other nine types. Known finding: Triangle is re-normalised to CCW by map_coords.",
             "DESIGN.md §4 C19"),
     "C15": ("E1-grid", "bounded exhaustive enumeration of vertex sequences x ratio/distance alphabets vs an arc-length walk reference",
-            "Every vertex sequence of length 1..5 (thorough 6) over the 3x3 lattice with repetition as LineString and every ordered pair (incl. equal points) as Line, crossed with ratios {-1,0,1/8..1,1+ulp,2} and every cumulative vertex ratio: the ratio and distance forms from start and end, the deprecated line_interpolate_point, and line_locate_point (simple lines) must agree with the arc-length walk; densify for LineString/Line/Polygon/Rect/Triangle with maxima from far below the shortest segment to above the total length keeps the vertices in order, inserts only points of the original segments, conserves length and respects the maximum.",
+            "Every vertex sequence of length 1..6 (thorough 7) over the 3x3 lattice with repetition as LineString and every ordered pair (incl. equal points) as Line, crossed with ratios {-1,0,1/8..1,1+ulp,2} and every cumulative vertex ratio: the ratio and distance forms from start and end, the deprecated line_interpolate_point, and line_locate_point (simple lines) must agree with the arc-length walk; densify for LineString/Line/Polygon/Rect/Triangle with maxima from far below the shortest segment to above the total length keeps the vertices in order, inserts only points of the original segments, conserves length and respects the maximum.",
             "Reference computed in f64 (sqrt), tolerance 1e-12 relative. The deprecated form's documented None on a zero-length line is not compared.",
             "DESIGN.md §4 C15"),
     "C16": ("E1-grid", "exhaustive enumeration of all ordered pairs of a lon/lat lattice (plus near-coincident and cross-antimeridian partners) against metric identities",
-            "All ordered pairs of a 15-degree (thorough 5-degree) lon/lat lattice, 8 neighbours at 1e-6 degree of every lattice point and cross-antimeridian partners, in Haversine, Geodesic, Rhumb and custom sphere / ellipsoid measures: round trip destination(a, bearing(a,b), distance(a,b)) within 1 mm of b, symmetry within 1 um, non-negativity, zero for identical points, point_at_ratio_between divides the distance, line-string length equals the segment sum, bearings in [0,360), outputs within lon/lat range; destination for bearings incl. negative and >360 and distances incl. 0 and negative: periodicity, sign symmetry and travelled distance.",
+            "All ordered pairs of a 10-degree (thorough 4-degree) lon/lat lattice, 8 neighbours at 1e-6 degree of every lattice point and cross-antimeridian partners, in Haversine, Geodesic, Rhumb and custom sphere / ellipsoid measures: round trip destination(a, bearing(a,b), distance(a,b)) within 1 mm of b, symmetry within 1 um, non-negativity, zero for identical points, point_at_ratio_between divides the distance, line-string length equals the segment sum, bearings in [0,360), outputs within lon/lat range; destination for bearings incl. negative and >360 and distances incl. 0 and negative: periodicity, sign symmetry and travelled distance.",
             "Weakest claim of the set: identities on a lattice say nothing between lattice points; pairs within ~2% of antipodal are excluded from the round-trip clause as the property allows. Measured worst deviations (<= 3e-8 m) are in the evidence. GeodesicMeasure::new's second parameter is named inverse_flattening but is used as the flattening f; the check passes f.",
             "DESIGN.md §4 C16"),
     "C13": ("E1-grid", "bounded exhaustive enumeration of integer affine matrices (pairs, triples), constructor parameters, and (similarity map x geometry pair) tuples; exact algebraic oracle and metamorphic commutation",
             "All ordered pairs of integer affine matrices (729 quick / 5625 thorough) on all lattice coordinates in f64 and i64: composition law, compose_many, inverse None iff singular and undoing the map; rotate/scale/skew/translate constructors and all Rotate/Scale/Skew/Translate trait methods incl. _mut and around centroid / bounding-box centre / point against the documented matrix; the 48 exact similarity maps D4 x {0,(7,-3)} x {1/2,1,2} applied to every ordered pair of a lattice shape family: relate, intersects/contains/within, is_valid unchanged, area x s^2 (sign flips under reflection), length/distance x s, centroid, bounding rect and hull vertex set equivariant, winding flips exactly under reflections.",
             "inverse for integer matrices only checked where the inverse is integral; Rect/Triangle are excluded from coordinate-wise constructor comparisons where map_coords re-normalises them.",
             "DESIGN.md §4 C13"),
+}
+
+# sentences appended to the level text (stages added in the second session; see DESIGN.md 6b)
+AFFINE = " Affine-image stages: the families are also pushed through integer affine maps (shear, general map with offset, orientation-reversing, extreme shear, nearly singular with a 5e5 offset) and the exact oracle is recomputed on the integer image: oblique and nearly parallel edges, crossing points that are not representable, coordinates up to 1e6."
+EXTRA = {
+    "C01": " The named predicates of IntersectionMatrix (is_disjoint .. is_overlaps, matches, from_str) are evaluated on the true matrix of every pair against their documented masks; collections with members of different concrete types in both orders." + AFFINE,
+    "C02": " Collections with members of different concrete types (Triangle/Rect/MultiPolygon next to Polygon, Line next to MultiLineString) in both orders." + AFFINE,
+    "C03": " Also: a constructed family at the edge of a semi-static filter's error bound (all coordinate differences round by ~0.49 ulp so that the two products drift apart; the evidence counts the points on which a filter with bound 1u/2u/2.5u/2.9u x detsum would be wrong), near-collinear i64/i32 triples whose products exceed 2^53/2^24 but fit the type, and point-in-triangle for every vertex order of every 4x4-lattice triangle in f64 and i64. Windows are 192^2 quick / 1536^2 thorough.",
+    "C04": " Also: operands at exact power-of-two scales down to 2^-30 (no absolute size threshold may exist), unary_union of rings written from their least vertex with a repeated closing coordinate." + AFFINE.replace("(shear, general map with offset, orientation-reversing, extreme shear, nearly singular with a 5e5 offset)", "(the three moderate ones)"),
+    "C06": " Scales 2^-30 and 2^40 at the origin (power-of-two scaling is exact: no absolute size threshold may exist).",
+    "C07": AFFINE,
+    "C08": " Also sequences of distinct points of the 5x5 lattice (k<=4, thorough 5) and repetition sequences up to 7 (thorough); minimum_rotated_rect at the exact scales 2^-30, 1, 2^20.",
+    "C09": " Index variants must be the identity for epsilon <= 0; the RDP bound on polygon rings is checked by existence of an admissible embedding; Polygon::simplify_vw must equal LineString::simplify_vw of the ring.",
+    "C10": " Also: polygons with 2 and 3 holes of 3..8 vertices in every order; constrained_outer_triangulation and the deprecated TriangulateSpade entry points; MultiPolygon inputs (member with an optional touching hole x translated member: disjoint, interleaving, vertex-vertex and vertex-edge contact) through constrained Delaunay (tiles the union), stitch (same area and exterior) and the joint monotone subdivision; stitch(earcut) is classified by whether the ear-cut triangulation is conforming." + AFFINE.replace("(shear, general map with offset, orientation-reversing, extreme shear, nearly singular with a 5e5 offset)", "(the three moderate ones)"),
+    "C12": AFFINE.replace("(shear, general map with offset, orientation-reversing, extreme shear, nearly singular with a 5e5 offset)", "(the three moderate ones; queries at the images of the half-step lattice)"),
+    "C13": " The commutation maps include the exact scales 2^-30 and 2^30; simplify_idx / simplify_vw_idx must keep the same positions when the tolerance is scaled with the map; the 'documented centre' of scale/skew/rotate is computed from the traversed coordinates, not from geo's bounding_rect.",
+    "C14": " Also: every ordered triple of a ring alphabet (incl. invalid members) as a three-member MultiPolygon with the member indices of every error; every Line, LineString (<= 4 coordinates), Triangle and Rect of the 3x3 lattice through the concrete type, the Geometry enum, a MultiLineString and a GeometryCollection." + AFFINE,
+    "C17": " Affine images of the families (oblique edges, overlapping R-tree envelopes) prepared in either or both positions, each prepared geometry reused along its row.",
+    "C20": " Also: scalar measures and reductions (area, centroid, geodesic area/perimeter, Chamberlain-Duquette area, lengths in four metric spaces, Hausdorff distance, interior point, hull, closest point, distance, simplify, densify, relate, is_valid, unary_union) over collections of 16/64/257 irregular members under every pool size and hash seed; relate on a fresh PreparedGeometry vs the same call after every other partner has been related to it in both positions.",
 }
 
 NOT_YET = "check not built yet in this round (planned: bounded exhaustive exploration, see DESIGN.md §4)"
@@ -103,7 +122,7 @@ def main():
             "evidence_file": "/verif/evidence/%s.json" % pid,
             "replay_cmd_template": "./check %s --replay {path}" % pid,
             "engine": eng,
-            "level_claimed": {"category": "model_checking", "text": text, "design_ref": ref},
+            "level_claimed": {"category": "model_checking", "text": text + EXTRA.get(pid, ""), "design_ref": ref},
             "level_note": note,
             "technique": tech,
         })
